@@ -190,6 +190,8 @@ class AsmPlan(Plan):
         import copy
         p = p_prog(ints)
         for k in range(len(p['items']) - 1, -1, -1):
+            if p['items'][k][0] == 'equ':
+                continue      # dropping a definition would leave names undefined: outside every quantifier
             c = copy.deepcopy(p)
             del c['items'][k]
             if c['items']:
@@ -433,7 +435,8 @@ class C05(TextPlan):
         b'a equ b\nb equ a\n;assert a\ndat a\n', b'a equ b\nb equ a\ndat a\n', b'x equ ;c\ndat x\n', b'x equ\ndat x\n',
         b'i for 0/0\ndat i\nrof\n', b'i for 2\ndat i\nrof', b'i for 2\ndat i\n', b'( for 2\ndat 1\nrof\n', b'i for 2\ndat i\nrof\n=',
         b'i for 2\ndat i\nrof\n= \ndat 1\n', b'lbl\n', b'lbl:', b'dat 0 ; c', b'mov 0,1\n;c', b'\x00', b'\x1a', b'<', b'=', b'|', b'&',
-        b'a equ a\ndat a\n', b'a equ b+1\nb equ c+1\nc equ a+1\ndat 1\n', b'i for 1000000\nrof\n',
+        b'a equ a\ndat a\n', b'a equ b+1\nb equ c+1\nc equ a+1\ndat 1\n', b'step equ step+1\nmov 0, step\n', b'x equ 2*x\ndat 1\n;assert x\n',
+        b'x equ (x)\norg x\ndat 1\n', b'n equ n-1\ni for n\ndat i\nrof\n', b'a equ b\nb equ b+a\ndat a\n', b'i for 1000000\nrof\n',
         b'dat 1 2\n', b'dat 1/0\n', b'dat 1%0\n', b'dat 99999999999\n', b'org 5\ndat 0\n', b'end 5\n', b'i for 3\nj for 3\ndat i*j\nrof\nrof\n',
     ]
 
@@ -452,6 +455,19 @@ class C05(TextPlan):
             lines.append([10] + cfg + list(t))
             for _ in range(2):
                 lines.append([10] + cfg + list(mutate_text(rng, t)))
+        # EQU definitions that mention themselves or each other, used in every position an expression can take
+        names = [b'a', b'b', b'c', b'step']
+        for _ in range(60 if tier != 'thorough' else 600):
+            ns = names[:rng.randint(1, 3)]
+            defs = b''
+            for nme in ns:
+                other = rng.choice(ns)
+                defs += nme + b' equ ' + rng.choice([other + b'+1', b'2*' + other, b'(' + other + b')', other + b'-' + rng.choice(ns), b'1+' + other + b'*' + other]) + b'\n'
+            use = rng.choice(ns)
+            body = rng.choice([b'dat ' + use + b'\n', b'mov 0, ' + use + b'\n', b';assert ' + use + b'\ndat 1\n', b'org ' + use + b'\ndat 1\n',
+                               b'i for ' + use + b'\ndat i\nrof\n', b'dat 1\nend ' + use + b'\n'])
+            t = defs + body if rng.random() < 0.7 else body + defs
+            lines.append([10] + dflt + list(t))
         # token soup
         alpha = [b'mov', b'dat', b'for', b'rof', b'equ', b'end', b'org', b'x', b'y', b'1', b'0', b'+', b'-', b'*', b'/', b'%', b'(', b')', b',', b':', b';c', b'\n', b' ', b'$', b'#', b'@', b'<', b'>', b'{', b'}', b'==', b'<=', b'.ab', b'_', b'\t', b'\r\n']
         nsoup = 300 if tier != 'thorough' else 6000
@@ -674,7 +690,7 @@ class C17(AsmPlan):
 
 class C14(TextPlan):
     pid = 'C14'
-    tie = {**ASM_TIE, 93: None, 2: 3, 3: None, 5: None, 6: None, 7: None, 8: None, 9: None, 10: None}
+    tie = {**ASM_TIE, 93: None, 94: None, 2: 3, 3: None, 5: None, 6: None, 7: None, 8: None, 9: None, 10: None}
     mon_extra = False
     binary = 'harness-race'
     extra_env = {'GORACE': 'halt_on_error=1 exitcode=66'}
@@ -706,6 +722,9 @@ class C14(TextPlan):
         r = find(impl, 93)
         if r is not None and r[1] != 1:
             return 'the-same-job-gave-%d-different-results' % r[1]
+        r = find(impl, 94)
+        if r is not None and r[1] != 1:
+            return 'a-concurrent-or-aliased-run-differs-from-the-same-job-run-alone'
         return None
 
     def input_in_fragment(self, ints):
